@@ -82,6 +82,46 @@ for _r, _g, _t in [(0, 1, "quick"), (1, 1, "quick"), (2, 1, "quick"), (2, 2, "qu
     _complete(_r, _g, _t)
 
 
+@obligation("C19", "query", ensures=["O-C19-query.exact-epoch"], fns=[IM + "EphemerisImporter.importEphemerides"], mode="Z",
+            note="the records handed out at a step are selected by EXACT equality of the epoch's ISO timestamp at microsecond resolution with the current epoch's: a record of a neighbouring "
+                 "instant (another sub-second sample of a finer database) is never taken for the step's record, and a gap at the exact epoch is seen as a gap")
+def query(vc):
+    class Col:
+        def __init__(self, name):
+            self._name = name
+
+        def __eq__(self, other):
+            return ("==", self._name, other)
+
+        __hash__ = None
+
+        def __getattr__(self, op):  # any other comparison / string operator is recorded as such (and is not the exact match)
+            return lambda *a, **k: (op, self._name, a)
+    seen = {}
+
+    class Q:
+        def __init__(self, what):
+            seen["select"] = what
+
+        def join(self, other):
+            seen["join"] = other
+            return self
+
+        def filter(self, *cond):
+            seen["filter"] = cond
+            return "QUERY"
+    EpochStub = _NS(timestampISO=Col("timestampISO"))
+    vc.install(IM + "@Query", Q)
+    vc.install(IM + "@Epoch", EpochStub)
+    when = _NS(isoformat=lambda timespec="auto": ("ISO", timespec))
+    got = []
+    o = vc.new(IM + "EphemerisImporter", _registrants={}, _importer_db=_NS(getData=lambda q: (got.append(q), [])[1]), _logger=__import__("logging").getLogger("pyvc"))
+    o.importEphemerides(when)
+    import resonaate.data.ephemeris as eph
+    vc.ensure("O-C19-query.exact-epoch", got == ["QUERY"] and seen.get("filter") == (("==", "timestampISO", ("ISO", "microseconds")),) and seen.get("join") is EpochStub
+              and list(seen.get("select")) == [eph.TruthEphemeris])
+
+
 @obligation("C19", "state", ensures=["O-C19-state.target", "O-C19-state.sensor"], fns=[TA + "TargetAgent.importState", SA + "SensingAgent.importState"], mode="R",
             note="after importState the agent's truth state is exactly the record's ECI state and its clock is (record JD - start JD) * 86400 (exact in reals; in floats within 5e-5 s, see O-C05-scen)")
 def state(vc):
